@@ -190,7 +190,8 @@ def split_extra(prop, tier, seed):
     rnd = random.Random(seed)
     names = ["sp1", "sp2", "__AUTH__", "__UNAUTH__"]
     clients = [("node", []), ("node", ["sp1"]), ("node", ["zz", "sp2"]), ("node", ["__UNAUTH__"]), ("node", ["__AUTH__", "sp1"]), ("node", ["zz"]),
-               ("base", []), ("base", ["sp1"]), ("base", ["__AUTH__"]), ("base", ["sp2", "__UNAUTH__"]), ("base", ["zz"]), ("fetch", ["sp1"])]
+               ("base", []), ("base", ["sp1"]), ("base", ["__AUTH__"]), ("base", ["sp2", "__UNAUTH__"]), ("base", ["zz"]), ("fetch", ["sp1"]),
+               ("rogue", []), ("node", ["sp1"]), ("rogue", ["__AUTH__"]), ("rogue", ["sp1"]), ("node", [])]
     regs = []
     for k in range(len(names) + 1):
         for sub in itertools.combinations(names, k):
@@ -200,7 +201,8 @@ def split_extra(prop, tier, seed):
     out = []
     for i, reg in enumerate(regs):
         native = [n for j, n in enumerate(reg) if (i + j) % 3 == 0]
-        ops = [dict(op="Config", reg=reg, native=native)] + [dict(op="Client", kind=k, extras=e) for (k, e) in clients] + [dict(op="CloseBase")]
+        # every other registry runs over a base listener that reports its closure with an error of its own
+        ops = [dict(op="Config", reg=reg, native=native, closeErr=("custom" if i % 2 else "std"))] + [dict(op="Client", kind=k, extras=e) for (k, e) in clients] + [dict(op="CloseBase")]
         out.append(dict(id="reg%d" % i, ops=ops))
     return out
 
